@@ -128,12 +128,18 @@ Lemma repaired_replays :
   (c_hint f81_stack = None /\ deliver f81_stack m_debug_ev cx0 = [1] /\ c_f83 f81_stack = false).
 Proof. repeat split; vm_compute; reflexivity. Qed.
 
-(** ** DirectiveSet: replace-on-duplicate keeps the old maximum *)
+(** ** DirectiveSet: replace-on-duplicate recomputes the maximum (cc87356): "a=trace,a=error" has max_level ERROR;
+    a more specific directive beside it keeps its own level *)
 Definition ex_dirs : list sdir :=
   [ {| sd_target := Some "a"%string; sd_fields := []; sd_level := Some TRACE |};
+    {| sd_target := Some "ab"%string; sd_fields := []; sd_level := Some WARN |};
     {| sd_target := Some "a"%string; sd_fields := []; sd_level := Some ERROR |} ].
 Lemma ex_directive_nonvacuous :
   ds_dirs (ds_of cmp_sdir sd_level ex_dirs) =
-    [ {| sd_target := Some "a"%string; sd_fields := []; sd_level := Some ERROR |} ] /\
-  ds_max (ds_of cmp_sdir sd_level ex_dirs) = Some TRACE.
-Proof. split; vm_compute; reflexivity. Qed.
+    [ {| sd_target := Some "ab"%string; sd_fields := []; sd_level := Some WARN |};
+      {| sd_target := Some "a"%string; sd_fields := []; sd_level := Some ERROR |} ] /\
+  ds_max (ds_of cmp_sdir sd_level ex_dirs) = Some WARN /\
+  ds_max (ds_of cmp_sdir sd_level (firstn 2 ex_dirs)) = Some TRACE /\
+  ds_replaced cmp_sdir {| sd_target := Some "a"%string; sd_fields := []; sd_level := Some ERROR |}
+     (ds_dirs (ds_of cmp_sdir sd_level (firstn 2 ex_dirs))) = true.
+Proof. repeat split; vm_compute; reflexivity. Qed.
